@@ -48,6 +48,7 @@ def run(ctx):
              "non-trivial = complete executions in which M grew and the optimum changed at least once",
         exhaustive=True, tie_nodes=s.get("tie_nodes", 0), m_growths=s.get("m_growths", 0),
         tree_executions=agg["tree_runs"], deviation_executions=agg["dev_runs"],
+        resolution_horizon_stops=agg["horizon_stops"],
         bounds=solverexp.describe(tasks),
         samples=[dict(cfg=t["cfg"], alphabet=t.get("alphabet"), prefix=t.get("prefix"), depth=t.get("depth"))
                  for t in tasks[:2]] + [dict(cfg=t["cfg"], devs=t["devs"][-2:], horizon=t["h"]) for t in tasks[-2:]],
